@@ -331,6 +331,16 @@ def labCastling (r : Rng) : Rng × Spec.SPos :=
       else (r, b)
     else (r, b)
   let (r, b) := sprinkle r b (n + 1) [2, 3, 3, 4, 4, 5, 8, 9, 9, 10, 10, 11, 1, 7]
+  -- sometimes the opponent has just made a double pawn push: castling (and every other move) must then clear the
+  -- en-passant square and its key component
+  let (r, withEp) := r.below 3
+  let (r, f) := r.below 8
+  let pushed := if side = 0 then 32 + f else 24 + f
+  let epSq := if side = 0 then 40 + f else 16 + f
+  let origin := if side = 0 then 48 + f else 8 + f
+  if withEp = 0 ∧ Spec.pcAt b pushed = 0 ∧ Spec.pcAt b epSq = 0 ∧ Spec.pcAt b origin = 0 then
+    (r, { board := b.set pushed (Spec.mkPc (1 - side) 1), side := side, castling := rights, ep := epSq, halfmove := 0, fullmove := 20 })
+  else
   (r, { board := b, side := side, castling := rights, ep := 64, halfmove := 3, fullmove := 20 })
 
 /-- place a king of colour `kc` and a slider of colour `sc` on opposite sides of square `x` along a random line -/
@@ -422,8 +432,10 @@ def labPromo (r : Rng) : Rng × Spec.SPos :=
   let b := putPiece b wk 6
   let (r, bk) := r.below 64
   let b := putPiece b bk 12
-  let (r, m) := r.below 4
-  let (r, b) := sprinkle r b m [3, 4, 5, 9, 10, 11, 2, 8, 7]
+  -- own pieces of the promotable kinds are already on the board (a promotion then adds a second one to that piece
+  -- list) and enemy pieces that may capture either of them
+  let (r, m) := r.below 7
+  let (r, b) := sprinkle r b m [5, 4, 3, 2, 5, 4, 9, 10, 11, 8, 7, 11, 10]
   (r, { board := b, side := 0, castling := 0, ep := 64, halfmove := 1, fullmove := 40 })
 
 def labSparse (r : Rng) : Rng × Spec.SPos :=
